@@ -151,7 +151,9 @@ def key_of(inst, val, label):
         extra = 'blank' if any(ch.isspace() for ch in val) else ('digit' if any(ch.isdigit() for ch in val) else ('eq' if '=' in val else 'other'))
     kind = 'argv' if label in ('argv', 'argc') else label
     if not quoted:
-        return 'unquoted-result-reread:%s' % kind      # one root cause: operators are recognised after expansion
+        # one root cause (operators are recognised after expansion), keyed per channel; a matched file name containing a blank
+        # is protected by cicada (it is re-tagged with double quotes), so that case has its own key and is not a known finding
+        return 'unquoted-result-reread:%s:%s%s' % (kind, inst['channel'], ':blank' if inst['channel'] == 'glob' and ' ' in val else '')
     return '%s:%s:%s:%s:{%s}%s' % (kind, inst['channel'], 'dq', pos, ops, extra)
 
 def run_instance(prog, inst, tier, seed, deadline):
